@@ -613,7 +613,21 @@ static void check_setters(Choices &c, Ctx &ctx)
 {
 	// set then get in own type
 	json_object *ji = c.coin(50) ? json_object_new_uint64(c.bits(8)) : json_object_new_int64((int64_t)c.bits(8));
-	json_object *jd = c.coin(50) ? json_object_new_double_s(1.5, "1.50") : json_object_new_double(2.5);
+	json_object *jd;
+	switch (c.pickn(6))
+	{
+	case 0: jd = json_object_new_double_s(1.5, "1.50"); break;
+	case 1: jd = json_object_new_double(2.5); break;
+	case 2: jd = json_object_new_double_s(0.0, "0.0"); break;
+	case 3: jd = json_object_new_double_s(-0.0, "-0e5"); break;
+	case 4: {
+		// a parsed double keeps its source text
+		static const char *src[] = {"0.0", "-0.0", "0e5", "1.50", "-1.5e0", "1E2"};
+		jd = json_tokener_parse(src[c.pickn(6)]);
+		break;
+	}
+	default: jd = json_object_new_double(c.coin(50) ? 0.0 : -0.0); break;
+	}
 	json_object *jb = json_object_new_boolean(0);
 	json_object *js = json_object_new_string("x");
 	for (int rep = 0; rep < 3; rep++)
@@ -644,15 +658,31 @@ static void check_setters(Choices &c, Ctx &ctx)
 		}
 		}
 	}
-	double dv = c.coin(50) ? DL()[c.pickn(DL().size())] : bits_dbl(c.bits(8));
-	if (json_object_set_double(jd, dv) != 1 || (dbl_bits(json_object_get_double(jd)) != dbl_bits(dv) && !std::isnan(dv)))
-		ctx.fail("set-get", "set_double then get_double differs");
-	if (std::isfinite(dv))
+	for (int rep = 0, nrep = 1 + (int)c.pickn(3); rep < nrep; rep++)
 	{
-		// the retained text must not survive a set_double
-		const char *t = json_object_to_json_string_ext(jd, JSON_C_TO_STRING_PLAIN);
-		if (!t || correctly_rounded(t, dv) != 1)
-			ctx.fail("set-double-text", std::string("after set_double the node serialises as ") + (t ? t : "NULL") + " which does not denote the new value");
+		double dv;
+		switch (c.pickn(5))
+		{
+		case 0: dv = DL()[c.pickn(DL().size())]; break;
+		case 1: dv = bits_dbl(c.bits(8)); break;
+		case 2: dv = 0.0; break;
+		case 3: dv = -0.0; break;
+		default: dv = json_object_get_double(jd); break; // the value it already has
+		}
+		if (json_object_set_double(jd, dv) != 1 || (dbl_bits(json_object_get_double(jd)) != dbl_bits(dv) && !std::isnan(dv)))
+		{
+			char bb[160];
+			snprintf(bb, sizeof bb, "set_double(%.17g, bits %016llx) then get_double gives %.17g (bits %016llx)", dv, (unsigned long long)dbl_bits(dv), json_object_get_double(jd),
+			         (unsigned long long)dbl_bits(json_object_get_double(jd)));
+			ctx.fail("set-get", bb);
+		}
+		if (std::isfinite(dv))
+		{
+			// the retained text must not survive a set_double
+			const char *t = json_object_to_json_string_ext(jd, JSON_C_TO_STRING_PLAIN);
+			if (!t || correctly_rounded(t, dv) != 1 || (t[0] == '-') != std::signbit(dv))
+				ctx.fail("set-double-text", std::string("after set_double the node serialises as ") + (t ? t : "NULL") + " which does not denote the new value");
+		}
 	}
 	int bv = (int)c.range(0, 1);
 	if (json_object_set_boolean(jb, bv) != 1 || json_object_get_boolean(jb) != bv)
